@@ -133,6 +133,34 @@ def rule_link(c, prog):
             c.ok(R, f"unlink-pred:{name}")
         else:
             c.violation(R, f"unlink|{name}|pred", f"{name}: the retain predicate is not `child != referent`", fn.sp, instance=f"unlink-pred:{name}")
+    # (b') unlink before link: with the same parent as source and destination, push-then-retain removes both entries
+    for name in ("WeakDom::transfer", "WeakDom::transfer_within"):
+        fn = prog.fn(DOM + name)
+        cfg = D.CFG(fn)
+        dom = cfg.dominators()
+        muts = D.field_mutations(fn)
+        retain_blocks = {i for i, cal, t in U.calls_in(fn, r"alloc::vec::Vec::<T, A>::retain(_mut)?$")}
+        push_blocks = {i for i, cal, t in U.calls_in(fn, r"alloc::vec::Vec::<T, A>::push$") if any(m["field"] == U.F_CHILDREN and m["how"].endswith("::push") and m["sp"] == t.get("sp") for m in muts)}
+        inst = f"unlink-before-link:{name}"
+        # no retain is reachable after a push
+        after_push = set()
+        for pb in push_blocks:
+            after_push |= cfg.reachable_from(pb) - {pb}
+        if retain_blocks and push_blocks and not (retain_blocks & after_push):
+            c.ok(R, inst)
+        else:
+            c.violation(R, f"order|{name}", f"{name}: the instance is pushed onto the new parent's children before it is retained out of the old parent's; when both are the same instance (re-appending under the current parent) the retain removes the fresh entry too and the child disappears from its parent", fn.sp, instance=inst)
+    # retain guard must be exactly `old parent is some`: an extra conjunct (e.g. `&& parent != dest`) skips the unlink while the push still happens
+    for name in ("WeakDom::destroy", "WeakDom::transfer", "WeakDom::transfer_within"):
+        fn = prog.fn(DOM + name)
+        for n in core.walk_fn(fn):
+            if n.get("k") == "If" and any(x.get("k") == "MethodCall" and x["m"] in ("retain", "retain_mut") for x in core.walk(n["t"])):
+                cnd = core.strip(n["c"])
+                inst = f"unlink-guard:{name}"
+                if cnd.get("k") == "MethodCall" and cnd["m"] == "is_some" and not cnd["args"]:
+                    c.ok(R, inst)
+                else:
+                    c.violation(R, f"unlink-guard|{name}", f"{name}: the unlink from the old parent is guarded by `{core.fingerprint(cnd, 5)}`, not just `old_parent.is_some()`: when the extra condition fails the instance stays listed by its old parent (listed twice after the push)", core.loc(n), instance=inst)
     # (c) work lists
     for name in ("WeakDom::destroy", "WeakDom::transfer"):
         fn = prog.fn(DOM + name)
